@@ -190,23 +190,54 @@ Proof.
       set (gx := x / sqrt (W + x * x)) in *. set (gy := y / sqrt (W + y * y)) in *. lra.
 Qed.
 
-(* the three sign cases of current_polyline_Hfield collapse to one signed expression *)
-Lemma deltaSin_cases W al R1 R2 : 0 < W ->
-  R1 = sqrt (W + al * al) -> R2 = sqrt (W + (al - 1) * (al - 1)) ->
+(* deltaSin_beyond (the cancellation-free form used when the foot of the perpendicular lies beyond
+   an end of the segment) equals the signed difference of sines *)
+Lemma dSb_identity W al R1 R2 N4 :
+  R1 * R1 = W + al * al -> R2 * R2 = W + (al - 1) * (al - 1) -> N4 * N4 = W ->
+  0 < R1 -> 0 < R2 -> al * R2 + (al - 1) * R1 <> 0 ->
+  N4 * N4 * (al + (al - 1)) / (R1 * R2 * (al * R2 + (al - 1) * R1)) = al / R1 - (al - 1) / R2.
+Proof.
+  intros H1 H2 H4 HR1 HR2 Hd. rewrite H4.
+  assert (key : (al * R2 - (al - 1) * R1) * (al * R2 + (al - 1) * R1) = W * (al + (al - 1))).
+  { transitivity (al * al * (R2 * R2) - (al - 1) * (al - 1) * (R1 * R1)); [ring|rewrite H1, H2; ring]. }
+  rewrite <- key. field. repeat split; lra.
+Qed.
+
+(* the sign cases of current_polyline_Hfield collapse to one signed expression *)
+Lemma deltaSin_cases W al R1 R2 N4 : 0 < W ->
+  R1 = sqrt (W + al * al) -> R2 = sqrt (W + (al - 1) * (al - 1)) -> N4 * N4 = W ->
   let n41 := Rabs al in let n42 := Rabs (al - 1) in
   let s1 := n41 / R1 in let s2 := n42 / R2 in
   let m2 := Rltb 1 n41 && Rltb n42 n41 in
   let m3 := Rltb 1 n42 && Rltb n41 n42 in
-  (if m2 then Rabs (s1 - s2) else if m3 then Rabs (s2 - s1) else Rabs (s1 + s2))
+  let dSb := N4 * N4 * (n41 + n42) / (R1 * R2 * (n41 * R2 + n42 * R1)) in
+  (if m2 then dSb else if m3 then dSb else Rabs (s1 + s2))
   = al / R1 - (al - 1) / R2.
 Proof.
-  intros HW HR1 HR2. cbv zeta.
+  intros HW HR1 HR2 HN4. cbv zeta.
   assert (Hmono : 0 <= al / R1 - (al - 1) / R2).
   { subst R1 R2. pose proof (g_mono W (al - 1) al HW ltac:(lra)). lra. }
+  assert (Hq2 : 0 < W + (al - 1) * (al - 1)).
+  { pose proof (Rle_0_sqr (al - 1)) as Hs. unfold Rsqr in Hs. lra. }
   assert (H1 : 0 < R1) by (subst R1; apply sqrt_lt_R0; nra).
-  assert (H2 : 0 < R2).
-  { subst R2. apply sqrt_lt_R0. pose proof (Rle_0_sqr (al - 1)) as Hs. unfold Rsqr in Hs. lra. }
+  assert (H2 : 0 < R2) by (subst R2; apply sqrt_lt_R0; exact Hq2).
+  assert (HR1s : R1 * R1 = W + al * al) by (subst R1; apply sqrt_sqrt; nra).
+  assert (HR2s : R2 * R2 = W + (al - 1) * (al - 1)) by (subst R2; apply sqrt_sqrt; lra).
   clear HR1 HR2.
+  (* the two "beyond an end" situations *)
+  assert (Hpos : 1 < al ->
+            N4 * N4 * (al + (al - 1)) / (R1 * R2 * (al * R2 + (al - 1) * R1)) = al / R1 - (al - 1) / R2).
+  { intros Hal. apply (dSb_identity W); try assumption. apply Rgt_not_eq.
+    assert (0 < al * R2) by (apply Rmult_lt_0_compat; lra).
+    assert (0 < (al - 1) * R1) by (apply Rmult_lt_0_compat; lra). lra. }
+  assert (Hneg : al < 0 ->
+            N4 * N4 * (- al + - (al - 1)) / (R1 * R2 * (- al * R2 + - (al - 1) * R1)) = al / R1 - (al - 1) / R2).
+  { intros Hal.
+    assert (Hd : al * R2 + (al - 1) * R1 < 0).
+    { assert (0 < (- al) * R2) by (apply Rmult_lt_0_compat; lra).
+      assert (0 < (- (al - 1)) * R1) by (apply Rmult_lt_0_compat; lra). lra. }
+    rewrite <- (dSb_identity W al R1 R2 N4) by (try assumption; lra).
+    field. repeat split; lra. }
   destruct (Rltb 1 (Rabs al)) eqn:Ea; destruct (Rltb (Rabs (al - 1)) (Rabs al)) eqn:Eb; cbn [andb].
   - (* mask2: al > 1 *)
     apply Rltb_true in Ea, Eb.
@@ -215,8 +246,8 @@ Proof.
       - rewrite (Rabs_left1 al) in Eb by lra. rewrite Rabs_left1 in Eb by lra. lra.
       - rewrite (Rabs_pos_eq al) in Ea by lra. exact Ea. }
     rewrite (Rabs_pos_eq al) by lra. rewrite (Rabs_pos_eq (al - 1)) by lra.
-    apply Rabs_pos_eq. exact Hmono.
-  - (* not mask2 by second test: then mask3 or mask4 *)
+    apply Hpos. exact Hal.
+  - (* not mask2 by second test: then mask3 *)
     apply Rltb_true in Ea. apply Rltb_false in Eb.
     assert (Hal : al < 0).
     { destruct (Rle_lt_dec 0 al) as [Hp|Hn]; [|exact Hn]. exfalso.
@@ -225,10 +256,8 @@ Proof.
     rewrite (Rabs_left al) by lra. rewrite (Rabs_left (al - 1)) by lra.
     destruct (Rltb 1 (- (al - 1))) eqn:Ec; destruct (Rltb (- al) (- (al - 1))) eqn:Ed; cbn [andb];
       try (apply Rltb_false in Ec; lra); try (apply Rltb_false in Ed; lra).
-    replace (- (al - 1) / R2 - - al / R1) with (al / R1 - (al - 1) / R2) by (field; lra).
-    apply Rabs_pos_eq. exact Hmono.
+    apply Hneg. exact Hal.
   - apply Rltb_false in Ea. apply Rltb_true in Eb.
-    (* |al| <= 1 and |al-1| < |al| : 1/2 < al <= 1 *)
     assert (Hal : 0 < al <= 1).
     { destruct (Rle_lt_dec al 0) as [Hn|Hp].
       - rewrite (Rabs_left1 al) in Eb by lra. rewrite Rabs_left1 in Eb by lra. lra.
@@ -238,7 +267,6 @@ Proof.
     replace (al / R1 + - (al - 1) / R2) with (al / R1 - (al - 1) / R2) by (field; lra).
     apply Rabs_pos_eq. exact Hmono.
   - apply Rltb_false in Ea. apply Rltb_false in Eb.
-    (* |al| <= 1, |al| <= |al - 1| : -1 <= al <= 1/2 *)
     destruct (Rle_lt_dec 0 al) as [Hp|Hn].
     + rewrite (Rabs_pos_eq al) in * by lra.
       assert (al - 1 <= 0) by lra. rewrite (Rabs_left1 (al - 1)) in * by lra.
@@ -248,11 +276,9 @@ Proof.
     + rewrite (Rabs_left al) in * by lra. rewrite (Rabs_left (al - 1)) in * by lra.
       destruct (Rltb 1 (- (al - 1))) eqn:Ec; destruct (Rltb (- al) (- (al - 1))) eqn:Ed; cbn [andb];
         try (apply Rltb_false in Ed; lra).
-      * replace (- (al - 1) / R2 - - al / R1) with (al / R1 - (al - 1) / R2) by (field; lra).
-        apply Rabs_pos_eq. exact Hmono.
+      * apply Hneg. exact Hn.
       * apply Rltb_false in Ec. lra.
 Qed.
-
 
 Definition Rvdivs (a : RV3) (t : R) : RV3 := let '(a0, a1, a2) := a in (a0 / t, a1 / t, a2 / t).
 
@@ -273,7 +299,8 @@ Definition poly_inner (q1 q2 qo : RV3) (n12 cur : R) : (nat * RV3) :=
   let m2 := Rltb 1 n41 && Rltb n42 n41 in
   let m3 := Rltb 1 n42 && Rltb n41 n42 in
   let br := if m2 then 2%nat else if m3 then 3%nat else 4%nat in
-  let dS := if m2 then Rabs (s1 - s2) else if m3 then Rabs (s2 - s1) else Rabs (s1 + s2) in
+  let dSb := no4 * no4 * (n41 + n42) / (no1 * no2 * (n41 * no2 + n42 * no1)) in
+  let dS := if m2 then dSb else if m3 then dSb else Rabs (s1 + s2) in
   let c (e : R) := dS / no4 * e / n12 * cur / (4 * PI) in
   let '(e0, e1, e2) := eB in
   (br, (c e0, c e1, c e2)).
@@ -373,11 +400,11 @@ Proof.
   unfold poly_inner. rewrite in_t. fold q4. unfold Rnorm.
   rewrite in_o4, in_cros, in_nc, in_41, in_42, in_R1, in_R2, !sqrt_sq_abs.
   destruct (Rltb (sqrt W) (1 / 1000000000000000)) eqn:Eb; [apply Rltb_true in Eb; lra|].
-  pose proof (deltaSin_cases W al _ _ HW eq_refl eq_refl) as HdS. cbv zeta in HdS.
+  assert (HWW : sqrt W * sqrt W = W) by (apply sqrt_sqrt; lra).
+  pose proof (deltaSin_cases W al _ _ (sqrt W) HW eq_refl eq_refl HWW) as HdS. cbv zeta in HdS.
   cbv zeta. rewrite HdS.
   destruct (Rcross E A) as [[n0 n1] n2]. unfold Rvdivs, Rvscale. cbn [snd].
   pose proof PI_RGT_0 as Hpi.
-  assert (HWW : sqrt W * sqrt W = W) by (apply sqrt_sqrt; lra).
   assert (H1 : 0 < sqrt (W + al * al)) by (apply sqrt_lt_R0; nra).
   assert (H2 : 0 < sqrt (W + (al - 1) * (al - 1))).
   { apply sqrt_lt_R0. pose proof (Rle_0_sqr (al - 1)) as Hs. unfold Rsqr in Hs. lra. }
